@@ -46,7 +46,8 @@ SIG_CONSTRUCTS = {
 _SIG_REF = {"list_ann_param": "lp", "list_ann_ret": "lr", "list_ann_field": "lf",
             "list_ann_nested_sig": "lns", "list_ann_generic_arg": "lg", "list_ann_callable": "lc"}
 UNGATED = {"none"}
-CONTEXTS = ("top", "in_if", "in_while", "in_for", "in_nested_fn", "in_callee", "in_method")
+CONTEXTS = ("top", "in_if", "in_else", "in_while", "in_for", "in_nested_fn", "in_nested_fn_under_if",
+            "in_nested_fn_under_for", "in_nested_nested_fn", "in_callee", "in_method")
 
 # the "fault": an ordinary mistake, by the pipeline stage at which it is reported
 FAULTS = {
@@ -107,8 +108,19 @@ def program(kind: str, ctx: str, fault=None) -> str:
         lines = ["k = 0", "while k < 2:"] + indent(body, 4) + ["    k += 1"]
     elif ctx == "in_for":
         lines = ["for j in range(2):"] + indent(body, 4)
+    elif ctx == "in_else":
+        lines = ["if a > 0:", "    pass", "else:"] + indent(body, 4)
     elif ctx == "in_nested_fn":
         lines = ["def wrap(a: int) -> int:"] + indent(body, 4) + ["    return a", "w = wrap(a)"]
+    elif ctx == "in_nested_fn_under_if":
+        lines = ["if a > 0:", "    def wrap(a: int) -> int:"] + indent(body, 8) + \
+            ["        return a", "    w = wrap(a)"]
+    elif ctx == "in_nested_fn_under_for":
+        lines = ["for j in range(2):", "    def wrap(a: int) -> int:"] + indent(body, 8) + \
+            ["        return a", "    w = wrap(j)"]
+    elif ctx == "in_nested_nested_fn":
+        lines = ["def outerw(a: int) -> int:", "    def wrap(a: int) -> int:"] + indent(body, 8) + \
+            ["        return a", "    return wrap(a)", "w = outerw(a)"]
     elif ctx in ("in_callee", "in_method"):
         lines = None
     else:
